@@ -136,6 +136,8 @@ def out {α} (f : α → String) : Except BErr α → String
   `blw <cb> <abox>` / `blwmm <cb> <abox>`       → `block_level_width` without / with min-max
   `pwh cb <abox>` / `pw cb <abox>` / `ph cb <abox>` → `page_width_or_height`, `page_width`, `page_height`
   `idw <abox>` / `idh <abox>`                   → the two decorators around a function that does nothing
+  `shw d <abox>`                                → `handle_min_max_width` around `box.position_x += d`
+  `idwn <abox>`                                 → `handle_min_max_width` around nothing, on a box without `position_x`
   `clamp h min max`                             → `max(min(h, max), min)`
   `doc W H <page nstyle> <node>`                → geometry of the page box and every block, preorder -/
 def handle (cmd : String) (args : List Sx) : Option String :=
@@ -183,6 +185,12 @@ def handle (cmd : String) (args : List Sx) : Option String :=
     pure (out showABox (handleMinMaxWidth (fun b => .ok b) (← abox? b)))
   | "idh", [b] => do
     pure (out showABox (handleMinMaxHeight (fun b => .ok b) (← abox? b)))
+  | "shw", [d, b] => do
+    let d ← d.rat?
+    pure (out showABox (handleMinMaxWidth (fun b => .ok { b with posX := b.posX + d }) (← abox? b)))
+  | "idwn", [b] => do
+    pure (out (fun b => s!"ml={showLen b.ml} mr={showLen b.mr} w={showLen b.w} x=absent")
+      (handleMinMaxWidthNoX (fun b => .ok b) (← abox? b)))
   | "doc", [w, h, pg, root] => do
     let r := layoutDoc (← w.rat?) (← h.rat?) (← nstyle? pg) (← node? root)
     pure (out (fun gs => " ".intercalate (gs.map showGeo)) r)
